@@ -499,6 +499,52 @@ class Ctx:
 
 # ----------------------------------------------------------------------------- generic Coq stage
 
+def _attribute_failures(props_target, src, thms, full):
+    """returns {theorem: ok}. Only meaningful when every dependency compiled and the Props file failed."""
+    status = {t: False for t in thms}
+    rel = props_target[:-1]
+    if not re.search(r'File "\./%s", line (\d+)' % re.escape(rel), full):
+        return status
+    # split the source into blocks starting at each Theorem/Corollary/Lemma
+    starts = [m.start() for m in re.finditer(r"^\s*(?:Theorem|Corollary|Lemma)\s+[\w']+", src, flags=re.M)]
+    if not starts:
+        return status
+    header = src[:starts[0]]
+    blocks = [src[a:b] for a, b in zip(starts, starts[1:] + [len(src)])]
+    names = [re.match(r"\s*(?:Theorem|Corollary|Lemma)\s+([\w']+)", b).group(1) for b in blocks]
+    alive = list(range(len(blocks)))
+    with scratch("attr") as d:
+        for _ in range(len(blocks) + 1):
+            txt = header + "".join(blocks[i] for i in alive)
+            # Print Assumptions / later references of dropped theorems are removed with their block only if inside it
+            for i in set(range(len(blocks))) - set(alive):
+                txt = re.sub(r"^\s*Print Assumptions %s\.\s*$" % re.escape(names[i]), "", txt, flags=re.M)
+            pth = os.path.join(d, "P.v")
+            open(pth, "w").write(txt)
+            rc, out = coqc_file(pth, timeout=900)
+            if rc == 0:
+                for i in alive:
+                    status[names[i]] = True
+                return status
+            m = re.search(r'line (\d+), characters', out)
+            if not m:
+                return status
+            line = int(m.group(1))
+            # which alive block contains that line
+            pos = len(header.split("\n")) - 1
+            hit = None
+            for i in alive:
+                n = blocks[i].count("\n")
+                if pos < line <= pos + n + 1:
+                    hit = i
+                    break
+                pos += n
+            if hit is None:
+                return status
+            alive.remove(hit)
+    return status
+
+
 def coq_stage(ctx, props_target, gen=None, extra_targets=(), timeout=1500):
     """Stage 2+3 of the pipeline: (re)generate Gen files, build Props/<id>.vo with make -k, capture
     Print Assumptions, run the hygiene grep. Records one obligation per Theorem in the Props file
@@ -520,12 +566,17 @@ def coq_stage(ctx, props_target, gen=None, extra_targets=(), timeout=1500):
     src = open(os.path.join(COQ, props_target[:-1])).read()
     thms = re.findall(r"^\s*(?:Theorem|Corollary|Lemma)\s+([\w']+)", src, flags=re.M)
     failing = set()
+    status = {t: ok for t in thms}
     if not ok:
         # which dependency failed? report file names from make's error lines
         for m in re.finditer(r'File "\./([^"]+)", line (\d+)[^\n]*\n(Error[^\n]*(?:\n[^\n]+){0,6})', full):
             failing.add("%s:%s %s" % (m.group(1), m.group(2), m.group(3)[:600]))
+        # if the Props file itself is where checking stopped, find out WHICH theorems fail: drop the failing
+        # block and re-check the rest (scratch copy; the real file is never edited)
+        status = _attribute_failures(props_target, src, thms, full)
+    detail = "; ".join(sorted(failing))[:3000] or full[-1500:]
     for t in thms:
-        ctx.obligation(t, ok, "" if ok else "; ".join(sorted(failing))[:3000] or full[-1500:])
+        ctx.obligation(t, status.get(t, False), "" if status.get(t, False) else detail)
     for t in extra_targets:
         ctx.obligation(t, res[t][0], "" if res[t][0] else full[-1500:])
     axs, closed = parse_assumptions(full)
